@@ -12,7 +12,7 @@ use std::path::Path;
 const EXP: i64 = BASE_TIME + 3650 * DAY;
 
 fn subst(s: &str) -> String {
-    s.replace('^', "\u{1}").replace('@', "\u{e9}")
+    s.replace('^', "\u{1}").replace('`', "\t").replace('@', "\u{e9}")
 }
 
 /// the harness's own spelling of the file-name encoding: UTF-8 bytes, everything but
